@@ -72,17 +72,6 @@ Fixpoint encode_values (vs : list value) : outcome bytes enc_err :=
 Definition serialize (vs : list value) : outcome bytes enc_err := encode_values vs.
 
 (* ---------------------------------------------------------------- deserialization.rs *)
-(* read exactly n bytes (read_exact / read_uN): None = io::Error (UnexpectedEof) *)
-Fixpoint take_n (l : bytes) (n : N) : option (bytes * bytes) :=
-  if n =? 0 then Some ([], l)
-  else match l with
-       | [] => None
-       | x :: r => match take_n r (n - 1) with
-                   | Some (a, b) => Some (x :: a, b)
-                   | None => None
-                   end
-       end.
-
 (* HashMap::insert : last value wins, one entry per key *)
 Fixpoint map_insert (k : bytes) (v : value) (m : list (bytes * value)) : list (bytes * value) :=
   match m with
